@@ -77,9 +77,11 @@ enum Sm {
     Std0,
     Std1,
     Std2,
+    /// (stderr only) the very RawFd that stdout was given
+    RawShared,
 }
 const SMS: [Sm; 5] = [Sm::Unset, Sm::Inherit, Sm::Null, Sm::Pipe, Sm::Raw];
-const SMS_ALL: [Sm; 8] = [Sm::Unset, Sm::Inherit, Sm::Null, Sm::Pipe, Sm::Raw, Sm::Std0, Sm::Std1, Sm::Std2];
+const SMS_ALL: [Sm; 9] = [Sm::Unset, Sm::Inherit, Sm::Null, Sm::Pipe, Sm::Raw, Sm::Std0, Sm::Std1, Sm::Std2, Sm::RawShared];
 impl Sm {
     fn name(self) -> &'static str {
         match self {
@@ -91,6 +93,7 @@ impl Sm {
             Sm::Std0 => "RawFd(0)",
             Sm::Std1 => "RawFd(1)",
             Sm::Std2 => "RawFd(2)",
+            Sm::RawShared => "RawFd(same as stdout)",
         }
     }
     fn from_name(s: &str) -> Sm {
@@ -135,6 +138,8 @@ struct Config {
     /// disposition of SIGCHLD in the caller when it spawns: "default" | "ignore" (SIG_IGN) | "nocldwait"
     /// (a handler installed with SA_NOCLDWAIT): the kernel then reaps children itself, wait4 says ECHILD
     sigchld: String,
+    /// the same `Command` is spawned twice (first child run to its end); the second spawn is the judged one
+    twice: bool,
 }
 
 impl Config {
@@ -154,6 +159,7 @@ impl Config {
             pgroup: "unset".into(),
             closure: "none".into(),
             sigchld: "default".into(),
+            twice: false,
         }
     }
     fn to_json(&self) -> Value {
@@ -173,7 +179,7 @@ impl Config {
             "cwd": self.cwd,
             "stdio": self.stdio.iter().map(|m| m.name()).collect::<Vec<_>>(),
             "closed": (0..3).filter(|&k| self.closed[k]).collect::<Vec<_>>(),
-            "uid": self.uid, "gid": self.gid, "pgroup": self.pgroup, "closure": self.closure, "sigchld": self.sigchld,
+            "uid": self.uid, "gid": self.gid, "pgroup": self.pgroup, "closure": self.closure, "sigchld": self.sigchld, "twice": self.twice,
         })
     }
     fn from_json(v: &Value) -> Config {
@@ -196,6 +202,7 @@ impl Config {
             pgroup: s("pgroup", "unset"),
             closure: s("closure", "none"),
             sigchld: s("sigchld", "default"),
+            twice: v["twice"].as_bool().unwrap_or(false),
         }
     }
     /// the step that fails without any injection, with the errno Linux gives
@@ -295,6 +302,14 @@ impl Fault {
     }
 }
 
+/// The read of the exec-report pipe fails for good while the child's stdin is a pipe whose write end the
+/// parent holds: a spawn that waits for the child before dropping that end deadlocks (C13:spawn:hang:parent-read).
+fn read_failure_with_stdin_pipe(cfg: &Config, faults: &[Fault]) -> bool {
+    cfg.stdio[0] == Sm::Pipe && faults.iter().any(|f| !f.child && f.nr == libc::SYS_read && f.errno != libc::EINTR)
+}
+/// watchdog of those cases (a regression makes each of them hang)
+const READ_DEADLOCK_ALARM: u32 = 5;
+
 fn step_name(child: bool, nr: i64, args: &[u64; 6]) -> String {
     let side = if child { "child" } else { "parent" };
     if nr == libc::SYS_dup3 || nr == libc::SYS_dup2 {
@@ -322,7 +337,8 @@ fn menu(nr: i64, args: &[u64; 6], thorough: bool) -> Vec<(i32, bool)> {
         x if x == libc::SYS_openat || x == libc::SYS_open => vec![(libc::EMFILE, false), (libc::ENOENT, false), (libc::EACCES, false), (libc::ENOMEM, false)],
         x if x == libc::SYS_fork || x == libc::SYS_clone || x == libc::SYS_vfork => vec![(libc::EAGAIN, false), (libc::ENOMEM, false)],
         x if x == libc::SYS_close => vec![(libc::EIO, true), (libc::EINTR, true)],
-        x if x == libc::SYS_read => vec![(libc::EINTR, false)],
+        // the read of the exec-report pipe: interrupted (retried), or failing for good
+        x if x == libc::SYS_read => vec![(libc::EINTR, false), (libc::EIO, false), (libc::EBADF, false)],
         x if x == libc::SYS_wait4 => vec![(libc::EINTR, false)],
         // one EBUSY (the race with open): retrying and reporting it are both accepted (how dup3 treats it is C09's subject)
         x if x == libc::SYS_dup3 || x == libc::SYS_dup2 => vec![(libc::EMFILE, false), (libc::EBADF, false), (libc::EBUSY, false)],
@@ -337,7 +353,7 @@ fn menu(nr: i64, args: &[u64; 6], thorough: bool) -> Vec<(i32, bool)> {
         m
     } else {
         // quick: two answers for the calls the property names, one for the rest
-        let keep = if nr == libc::SYS_execve || nr == libc::SYS_dup3 || nr == libc::SYS_chdir || nr == libc::SYS_setpgid || nr == libc::SYS_fork { 2 } else { 1 };
+        let keep = if nr == libc::SYS_execve || nr == libc::SYS_dup3 || nr == libc::SYS_chdir || nr == libc::SYS_setpgid || nr == libc::SYS_fork || nr == libc::SYS_read { 2 } else { 1 };
         m.into_iter().take(keep).collect()
     }
 }
@@ -698,7 +714,7 @@ fn trace_json(shm: *mut Shm, caller: i32) -> Vec<Value> {
 fn exec_case(ctx: &Ctx, sdir: &str, shm: *mut Shm, shard_pgid: i32, cfg: &Config, faults: &[Fault]) -> ! {
     unsafe {
         libc::setpgid(0, 0);
-        libc::alarm(CASE_ALARM);
+        libc::alarm(if read_failure_with_stdin_pipe(cfg, faults) { READ_DEADLOCK_ALARM } else { CASE_ALARM });
         let caller = libc::getpid();
         let f = |n: &str| format!("{sdir}/{n}");
         write_file(&f("in0"), PARENT_STDIN);
@@ -710,16 +726,16 @@ fn exec_case(ctx: &Ctx, sdir: &str, shm: *mut Shm, shard_pgid: i32, cfg: &Config
         write_file(&f("report"), b"");
         // P's own standard streams: three distinct files, so that "inherited" is checkable
         let ok = open_at_fd(&f("in0"), libc::O_RDONLY, 0)
-            && open_at_fd(&f("out1"), libc::O_WRONLY, 1)
-            && open_at_fd(&f("err2"), libc::O_WRONLY, 2)
-            && open_at_fd(&f("report"), libc::O_WRONLY, REPORT_FD);
+            && open_at_fd(&f("out1"), libc::O_WRONLY | libc::O_APPEND, 1)
+            && open_at_fd(&f("err2"), libc::O_WRONLY | libc::O_APPEND, 2)
+            && open_at_fd(&f("report"), libc::O_WRONLY | libc::O_APPEND, REPORT_FD);
         if !ok {
             finish(shm, &json!({"machinery": "could not set up P's descriptors"}));
         }
         let mut raw_ident = vec![Value::Null; 3];
         for i in 0..3 {
             if cfg.stdio[i] == Sm::Raw {
-                let flags = if i == 0 { libc::O_RDONLY } else { libc::O_WRONLY };
+                let flags = if i == 0 { libc::O_RDONLY } else { libc::O_WRONLY | libc::O_APPEND };
                 if !open_at_fd(&f(&format!("raw{i}")), flags, RAW_FD_BASE + i as i32) {
                     finish(shm, &json!({"machinery": "could not open a RawFd file"}));
                 }
@@ -817,6 +833,7 @@ fn exec_case(ctx: &Ctx, sdir: &str, shm: *mut Shm, shard_pgid: i32, cfg: &Config
                 Sm::Null => Stdio::Null,
                 Sm::Pipe => Stdio::MakePipe,
                 Sm::Raw => Stdio::RawFd(rusl::platform::Fd::try_new(RAW_FD_BASE + i as i32).unwrap()),
+                Sm::RawShared => Stdio::RawFd(rusl::platform::Fd::try_new(RAW_FD_BASE + 1).unwrap()),
                 Sm::Std0 | Sm::Std1 | Sm::Std2 => Stdio::RawFd(rusl::platform::Fd::try_new(cfg.stdio[i].std_k().unwrap() as i32).unwrap()),
             };
             match i {
@@ -879,6 +896,34 @@ fn exec_case(ctx: &Ctx, sdir: &str, shm: *mut Shm, shard_pgid: i32, cfg: &Config
             }
             v
         };
+
+        // ---- (the same Command used before: first child spawned, fed, drained and waited for, un-judged)
+        if cfg.twice {
+            match catch(|| cmd.spawn()) {
+                Ok(Ok(mut first)) => {
+                    if let Some(p) = &first.stdin {
+                        let fd = p.borrow_fd().as_raw_fd().value();
+                        libc::write(fd, PIPE_STDIN.as_ptr() as *const libc::c_void, PIPE_STDIN.len());
+                    }
+                    drop(first.stdin.take());
+                    for p in [first.stdout.take(), first.stderr.take()].into_iter().flatten() {
+                        let _ = read_fd_all(p.borrow_fd().as_raw_fd().value());
+                    }
+                    let _ = first.wait();
+                }
+                Ok(Err(e)) => finish(shm, &json!({"machinery": format!("the first spawn of the twice-used command failed: {e}")})),
+                Err(p) => finish(shm, &json!({"machinery": format!("the first spawn of the twice-used command panicked: {p}")})),
+            }
+            // start the second child from a clean slate: outputs emptied, inputs rewound
+            for n in ["out1", "err2", "raw1", "raw2", "report"] {
+                let c = CString::new(f(n)).unwrap();
+                libc::truncate(c.as_ptr(), 0);
+            }
+            libc::lseek(0, 0, libc::SEEK_SET);
+            if cfg.stdio[0] == Sm::Raw {
+                libc::lseek(RAW_FD_BASE, 0, libc::SEEK_SET);
+            }
+        }
 
         // ---- the operation under test
         let mut plan = CasePlan { shm, caller, faults: faults.to_vec(), last_slot: usize::MAX, applied: vec![0; faults.len()] };
@@ -1022,10 +1067,14 @@ impl Shard {
         format!("{}/hangs", self.ctx.root)
     }
     fn run(&self, cfg: &Config, faults: &[Fault]) -> Result<Value, String> {
-        self.run_p(|| exec_case(&self.ctx, &self.sdir, self.shm, self.pgid, cfg, faults))
+        self.run_p2(|| exec_case(&self.ctx, &self.sdir, self.shm, self.pgid, cfg, faults), true)
+    }
+    fn run_p(&self, body: impl FnOnce()) -> Result<Value, String> {
+        self.run_p2(body, true)
     }
     /// Run `body` (which ends with `finish`) in a fresh process P and collect its observation.
-    fn run_p(&self, body: impl FnOnce()) -> Result<Value, String> {
+    /// `count_hang`: a hang counts against the run's hang budget.
+    fn run_p2(&self, body: impl FnOnce(), count_hang: bool) -> Result<Value, String> {
         if std::fs::metadata(self.hangs_file()).map(|m| m.len()).unwrap_or(0) >= MAX_HANGS {
             return Err("skipped".into());
         }
@@ -1053,6 +1102,9 @@ impl Shard {
             }
             if libc::WIFSIGNALED(st) && libc::WTERMSIG(st) == libc::SIGALRM {
                 use std::io::Write;
+                if !count_hang {
+                    return Err("hang".into());
+                }
                 if let Ok(mut f) = std::fs::OpenOptions::new().create(true).append(true).open(self.hangs_file()) {
                     let _ = f.write_all(b"h");
                 }
@@ -1235,6 +1287,21 @@ fn judge_ok(ctx: &Ctx, cfg: &Config, obs: &Value, r: &mut Report, rp: &Value) {
                 }
             }
             Sm::Std0 | Sm::Std1 | Sm::Std2 => unreachable!("aliasing configurations are judged separately"),
+            Sm::RawShared => {
+                // stderr on the very file stdout was given: both tokens arrive there, stdout's first
+                if !ident_eq(got, &obs["raw_ident"][1]) {
+                    bad.push(format!("descriptor {i} is {got}, the file given to stdout and stderr is {}", obs["raw_ident"][1]));
+                }
+                let both = [OUT_TOKEN, ERR_TOKEN].concat();
+                if filedata("raw1") != both {
+                    bad.push(format!("the file given to stdout and stderr received \"{}\"", show_bytes(&filedata("raw1"))));
+                }
+            }
+            Sm::Raw if i == 1 && cfg.stdio[2] == Sm::RawShared => {
+                if !ident_eq(got, &obs["raw_ident"][i]) {
+                    bad.push(format!("descriptor {i} is {got}, the given file is {}", obs["raw_ident"][i]));
+                }
+            }
             Sm::Raw => {
                 if !ident_eq(got, &obs["raw_ident"][i]) {
                     bad.push(format!("descriptor {i} is {got}, the given file is {}", obs["raw_ident"][i]));
@@ -1344,6 +1411,7 @@ fn judge_streams_aliasing(cfg: &Config, obs: &Value, r: &mut Report, rp: &Value)
             Sm::Null => Some(vec![obs["null_ident"].clone()]),
             Sm::Pipe => Some(vec![obs["pipe_ident"][i].clone()]),
             Sm::Raw => Some(vec![obs["raw_ident"][i].clone()]),
+            Sm::RawShared => Some(vec![obs["raw_ident"][1].clone()]),
             Sm::Std0 | Sm::Std1 | Sm::Std2 => {
                 let k = m.std_k().unwrap();
                 if pi[k].is_null() { None } else { Some(vec![pi[k].clone()]) }
@@ -1449,6 +1517,15 @@ fn judge(ctx: &Ctx, cfg: &Config, faults: &[Fault], res: &Result<Value, String>,
         Ok(o) => o,
         Err(e) if e == "hang" => {
             r.outcome("hang");
+            if read_failure_with_stdin_pipe(cfg, faults) {
+                r.outcome("hang-read-failure-with-stdin-pipe");
+                r.violation(
+                    "C13:spawn:hang:parent-read",
+                    format!("stdin = MakePipe and the read of the exec-report pipe fails for good (errno {:?}): spawn did not return within {READ_DEADLOCK_ALARM}s — it waits for the child before it lets go of the parent's end of the child's stdin pipe, and the child (any program that reads its stdin to end-of-file, e.g. cat) waits for that end to close", faults.iter().map(|f| f.errno).collect::<Vec<_>>()),
+                    rp,
+                );
+                return;
+            }
             r.violation("C13:spawn:hang", format!("spawn (or reading the pipes / wait) did not finish within {CASE_ALARM}s; failing step: {step}"), rp);
             return;
         }
@@ -1543,7 +1620,8 @@ fn judge(ctx: &Ctx, cfg: &Config, faults: &[Fault], res: &Result<Value, String>,
             rp.clone(),
         );
     }
-    if must_fail && !obs["helper"].is_null() {
+    // (the parent's read of the report pipe happens after the fork: the child may well have exec'd by then)
+    if must_fail && !obs["helper"].is_null() && step != "parent-read" {
         r.outcome("err-although-program-ran");
         r.violation(&format!("C13:spawn:err-although-program-ran:{step}"), format!("step {step} failed, spawn returned {} — but the requested program was executed", obs["err"]), rp.clone());
     }
@@ -1915,6 +1993,19 @@ fn program_paths() -> Vec<Config> {
     v
 }
 
+/// RawFd is borrowed: the same Command spawned twice must give the second child the file again; the
+/// same RawFd may serve stdout and stderr
+fn rawfd_reuse() -> (Vec<Config>, Vec<Config>) {
+    let base = Config::base();
+    let shared = |stdin: Sm| Config { stdio: [stdin, Sm::Raw, Sm::RawShared], ..base.clone() };
+    let with_faults = vec![shared(Sm::Inherit), shared(Sm::Pipe), shared(Sm::Null), shared(Sm::Raw)];
+    let mut twice = Vec::new();
+    for st in [[Sm::Raw, Sm::Inherit, Sm::Inherit], [Sm::Inherit, Sm::Raw, Sm::Inherit], [Sm::Inherit, Sm::Inherit, Sm::Raw], [Sm::Raw; 3], [Sm::Inherit, Sm::Raw, Sm::RawShared], [Sm::Pipe, Sm::Raw, Sm::Pipe], [Sm::Inherit; 3]] {
+        twice.push(Config { stdio: st, twice: true, ..base.clone() });
+    }
+    (with_faults, twice)
+}
+
 /// a few commands of different shape, to cross with the closure outcomes and the SIGCHLD dispositions
 fn shape_bases() -> Vec<Config> {
     let base = Config::base();
@@ -2028,6 +2119,7 @@ fn product(thorough: bool) -> Vec<Config> {
                                 pgroup: if ids { "zero" } else { "unset" }.into(),
                                 closure: cl.into(),
                                 sigchld: "default".into(),
+                                twice: false,
                             });
                         }
                     }
@@ -2067,6 +2159,13 @@ fn jobs(ctx: &Ctx) -> Vec<Job> {
     }
     for c in program_paths() {
         add(c, true, t, false, &mut out);
+    }
+    let (raw_shared, raw_twice) = rawfd_reuse();
+    for c in raw_shared {
+        add(c, true, t, false, &mut out);
+    }
+    for c in raw_twice {
+        add(c, false, false, false, &mut out);
     }
     for c in closure_family() {
         add(c, false, false, false, &mut out);
@@ -2144,6 +2243,8 @@ fn c13(args: &Args) -> Report {
     r.bound("shards", n_shards as u64);
     r.bound("deviations", if args.thorough { "every single call of parent and child x full errno menu for the single-factor configurations and the 125 stdio triples, x 1-2 errnos for the product; pairs (second deviation after the first, full menu) for the base command and the all-pipes command" } else { "every single call of parent and child x 1-2 errnos, for every configuration" });
     r.bound("args", "0..2 arguments incl. empty string and non-UTF-8 bytes; count ladder (fault-free) n = 0..=70 (thorough 0..=300) + {127,128,129,255,256,257,1000} (thorough + 511..513, 1023..1025, 4096), argument i = \"a<i>\"; the same ladder for provided environment entries \"E<i>=v<i>\"");
+    r.bound("read_failure_with_stdin_pipe", "a read of the exec-report pipe failing with EIO/EBADF is enumerated for every configuration with deviations, stdin = MakePipe included (watchdog 5 s there: a hang is C13:spawn:hang:parent-read)");
+    r.bound("rawfd_reuse", "Stdio::RawFd is borrowed: stdout and stderr on the same RawFd (x stdin Inherit/MakePipe/Null/RawFd, with deviations); the same Command spawned twice (7 stdio shapes), the second child judged");
     r.bound("closures", "pre-exec closure outcomes {Ok, Err(Os EXDEV), Err(Uncategorized), Err(Timeout), panic (unwinding)} as the only / first / second closure x 5 command shapes");
     r.bound("sigchld", "caller's SIGCHLD disposition {SIG_IGN, handler + SA_NOCLDWAIT} x 3 command shapes x {fault-free, every child-side call failing, program missing, cwd missing, closure Err(Os)/Err(Uncategorized)/panic}; Child::wait is not judged there");
     r.bound("program_paths", "absolute; relative (9 shapes: with a directory part, with ./, bare names) present under the caller's cwd only / the configured cwd only / both / neither, x cwd {unset, a directory != the caller's cwd}; which copy runs is read from /proc/self/exe of the program");
